@@ -242,7 +242,12 @@ def run_workflow(spec, workdir):
             ind = os.path.join(workdir, "in")
             os.makedirs(ind)
             m = rng.normal(size=(60, 80)).astype(np.float32)
-            p = fitsgen.write_piece(os.path.join(ind, "t.fits"), m, (0, 0, 80, 60), (40, 30), scale=0.5, crval=(R.uniform(0, 360), R.uniform(-60, 60)), bottoms_up=True)
+            cv = (R.uniform(0, 360), R.uniform(-60, 60))
+            p = fitsgen.write_piece(os.path.join(ind, "t.fits"), m, (0, 0, 80, 60), (40, 30), scale=0.5, crval=cv, bottoms_up=True)
+            if spec["seed"] % 2:
+                # a collection of images with different pixel scales, the finer one first
+                p2 = fitsgen.write_piece(os.path.join(ind, "fine.fits"), m, (0, 0, 80, 60), (40, 30), scale=0.06, crval=cv, bottoms_up=True)
+                p = [p2, p] if spec["seed"] % 4 == 1 else [p, p2]
             toasty.tile_fits(p, out_dir=out, parallel=par, override=True, tiling_method=TilingMethod.TOAST)
             casc = False
         elif wf == "wwtl":
